@@ -72,9 +72,18 @@ fn pretty(tcx: TyCtxt<'_>, did: DefId) -> String {
                     )));
                     segs.push(format!("<{} as {}>", st, trs));
                 } else if let ty::Adt(def, _) = self_ty.kind() {
-                    segs.push(ty::print::with_resolve_crate_name!(ty::print::with_no_trimmed_paths!(
-                        tcx.def_path_str(def.did())
-                    )));
+                    // one name per item whatever crate is being compiled: no re-export (visible) paths
+                    // outside the standard library
+                    let cn = tcx.crate_name(def.did().krate).to_string();
+                    if cn == "std" || cn == "core" || cn == "alloc" {
+                        segs.push(ty::print::with_resolve_crate_name!(ty::print::with_no_trimmed_paths!(
+                            tcx.def_path_str(def.did())
+                        )));
+                    } else {
+                        segs.push(ty::print::with_no_visible_paths!(ty::print::with_resolve_crate_name!(
+                            ty::print::with_no_trimmed_paths!(tcx.def_path_str(def.did()))
+                        )));
+                    }
                 } else {
                     segs.push(format!("<{}>", st));
                 }
@@ -216,6 +225,12 @@ impl<'tcx> Cx<'tcx> {
             mir::ConstValue::Scalar(sc) => {
                 if let Ok(si) = sc.try_to_scalar_int() {
                     let _ = write!(s, ",\"int\":\"{}\"", si.to_bits(si.size()));
+                    let bits = si.to_bits(si.size());
+                    let nb = si.size().bytes() as usize;
+                    let le: Vec<u8> = (0..nb).map(|i| ((bits >> (8 * i)) & 0xff) as u8).collect();
+                    if let Some(vn) = enum_variant_name(tcx, ty, &le) {
+                        let _ = write!(s, ",\"variant\":{}", esc(&vn));
+                    }
                 } else if let rustc_middle::mir::interpret::Scalar::Ptr(ptr, _) = sc {
                     // a reference to constant memory: dump the pointee when it is plain bytes
                     if let Some(pointee) = ty.builtin_deref(true) {
@@ -229,6 +244,9 @@ impl<'tcx> Cx<'tcx> {
                                 if alloc.inner().provenance().ptrs().is_empty() && layout.is_sized() {
                                     let bytes = alloc.inner().inspect_with_uninit_and_ptr_outside_interpreter(start..end);
                                     let _ = write!(s, ",\"ref_bytes\":{}", esc(&hex(bytes)));
+                                    if let Some(vn) = enum_variant_name(tcx, pointee, bytes) {
+                                        let _ = write!(s, ",\"variant\":{}", esc(&vn));
+                                    }
                                 }
                             }
                         }
@@ -485,6 +503,25 @@ impl<'tcx> Cx<'tcx> {
         s.push(']');
         s
     }
+}
+
+
+fn enum_variant_name<'tcx>(tcx: TyCtxt<'tcx>, ty: Ty<'tcx>, bytes: &[u8]) -> Option<String> {
+    if let ty::Adt(def, _) = ty.kind() {
+        if def.is_enum() && !bytes.is_empty() && bytes.len() <= 16 {
+            let mut v: u128 = 0;
+            for (i, b) in bytes.iter().enumerate() {
+                v |= (*b as u128) << (8 * i);
+            }
+            for (idx, d) in def.discriminants(tcx) {
+                let mask: u128 = if bytes.len() == 16 { u128::MAX } else { (1u128 << (8 * bytes.len())) - 1 };
+                if (d.val & mask) == v && def.variant(idx).fields.is_empty() {
+                    return Some(def.variant(idx).name.to_string());
+                }
+            }
+        }
+    }
+    None
 }
 
 fn hex(b: &[u8]) -> String {
